@@ -396,4 +396,15 @@ def r13_trap_variables_like_notification_objects(chk):
                  keep=lambda o: 'agree' in o.key or 'TrapType' in o.key, floor=1)
 
 
-RULES = [r1_lexer_aliases, r2_type_tables, r3_access, r4_import_table, r5_apply_table, r6_trap, r7_translate_before_use, r8_no_mutation_while_iterating, r9_every_type_record_is_translated, r10_adapter_keeps_smiv1_values, r11_symbol_table_registration, r12_import_map_holds_the_imports_clause, r13_trap_variables_like_notification_objects]
+
+def r14_relaxed_trap_enterprise_means_the_same(chk):
+    """shared with C17.R3: `ENTERPRISE { x n }` accepted by the relaxed SMIv1 dialect must give the trap the OID the
+    corrected text gives it"""
+    from rules.C17 import r3_added_alternatives as f
+    common.reuse(chk, f, ('C17.R3',), 'C16.R14',
+                 'the relaxations that touch TRAP-TYPE (curly braces around ENTERPRISE) yield the value the corrected '
+                 'text yields (C17.R3): the trap OID <enterprise>.0.<n> is computed from it',
+                 keep=lambda o: 'Enterprise' in o.key or 'trap' in o.key.lower(), floor=1)
+
+
+RULES = [r1_lexer_aliases, r2_type_tables, r3_access, r4_import_table, r5_apply_table, r6_trap, r7_translate_before_use, r8_no_mutation_while_iterating, r9_every_type_record_is_translated, r10_adapter_keeps_smiv1_values, r11_symbol_table_registration, r12_import_map_holds_the_imports_clause, r13_trap_variables_like_notification_objects, r14_relaxed_trap_enterprise_means_the_same]
